@@ -10,10 +10,17 @@ use std::panic::{catch_unwind, AssertUnwindSafe};
 
 pub const NSLOTS: usize = 6;
 
+/// runs whose callbacks carry handle cookies (decided by the run number alone, so that no PRNG draw is spent on it)
+#[allow(non_snake_case)]
+fn HANDLE_RUN(run: u64) -> bool {
+    (run.wrapping_mul(0x9E37_79B9_7F4A_7C15) >> 61) < 3
+}
+
 #[derive(Clone, Debug, PartialEq, Eq)]
 pub enum Op {
     Make { slot: usize, ty: Ty, arm: bool, n: usize, build: Build },
-    MakeCb { slot: usize, dtor: bool },
+    /// `handle`: the foreign side's `data` cookie is a table index (the first one is 0, a null `data`), not a pointer
+    MakeCb { slot: usize, dtor: bool, handle: bool },
     Conv { slot: usize, how: Conv },
     Clone { src: usize, dst: usize, panic_at: Option<u32> },
     Peek { slot: usize },
@@ -122,7 +129,7 @@ fn build_s(b: Build) -> &'static str {
 pub fn op_text(op: &Op) -> String {
     match op {
         Op::Make { slot, ty, arm, n, build } => format!("make {} {} {} {} {}", slot, ty_s(*ty), if *arm { "ok" } else { "err" }, n, build_s(*build)),
-        Op::MakeCb { slot, dtor } => format!("make_cb {} {}", slot, if *dtor { "dtor" } else { "nodtor" }),
+        Op::MakeCb { slot, dtor, handle } => format!("make_cb {} {}{}", slot, if *dtor { "dtor" } else { "nodtor" }, if *handle { " handle" } else { "" }),
         Op::Conv { slot, how } => format!("conv {} {}", slot, conv_s(*how)),
         Op::Clone { src, dst, panic_at } => match panic_at {
             Some(k) => format!("clone {} {} panic_at {}", src, dst, k),
@@ -152,7 +159,7 @@ fn parse_op(toks: &[&str]) -> Result<Op, String> {
                 _ => return Err("bad build".into()),
             },
         },
-        "make_cb" => Op::MakeCb { slot: us(1)?, dtor: toks.get(2) == Some(&"dtor") },
+        "make_cb" => Op::MakeCb { slot: us(1)?, dtor: toks.get(2) == Some(&"dtor"), handle: toks.get(3) == Some(&"handle") },
         "conv" => Op::Conv {
             slot: us(1)?,
             how: match toks.get(2).copied() {
@@ -323,6 +330,7 @@ fn panic_msg(p: &Box<dyn std::any::Any + Send>) -> String {
 
 pub fn execute(t: &Trace) -> Outcome {
     ledger::reset();
+    slots::reset_cookies();
     let careful = simcore::faultalloc::careful() && !cfg!(miri);
     if careful {
         simcore::faultalloc::track(true);
@@ -383,13 +391,16 @@ pub fn execute(t: &Trace) -> Outcome {
                         }
                     }
                 }
-                Op::MakeCb { slot, dtor } => {
+                Op::MakeCb { slot, dtor, handle } => {
                     kind = 2;
                     if slots[*slot].is_some() {
                         skipped = true;
                         return Ok(());
                     }
-                    let (cb, data) = slots::make_cb(*dtor);
+                    let (cb, data) = slots::make_cb_cookie(*dtor, *handle);
+                    if *handle {
+                        ctr.inc(if cb.cb.data.is_null() { "fault_callback_cookie_handle_zero_fired" } else { "fault_callback_cookie_handle_fired" });
+                    }
                     let id = next;
                     next += 1;
                     if !*dtor {
@@ -755,7 +766,8 @@ pub fn gen_trace(seed: u64, run: u64, _miri: bool) -> Trace {
                         tys[slot] = Some(ty);
                     }
                     _ => {
-                        ops.push(Op::MakeCb { slot, dtor: rng.chance(3, 4) });
+                        // (a property of the run, not a PRNG draw: three runs in eight model a foreign side with handle cookies)
+                        ops.push(Op::MakeCb { slot, dtor: rng.chance(3, 4), handle: HANDLE_RUN(run) });
                         tys[slot] = Some(Ty::Cb);
                     }
                 }
@@ -864,7 +876,7 @@ impl Sim for L1 {
         for op in &t.ops {
             match op {
                 Op::Make { ty, arm, n, build, .. } => s.push_str(&format!("M{}{}{}{:?};", ty_s(*ty), *arm as u8, (*n).min(2), build)),
-                Op::MakeCb { dtor, .. } => s.push_str(&format!("B{};", *dtor as u8)),
+                Op::MakeCb { dtor, handle, .. } => s.push_str(&format!("B{}{};", *dtor as u8, if *handle { "h" } else { "" })),
                 Op::Conv { how, slot } => s.push_str(&format!("C{}{};", *how as u8, slot)),
                 Op::Clone { panic_at, .. } => s.push_str(&format!("L{:?};", panic_at)),
                 Op::Peek { .. } => s.push_str("P;"),
